@@ -417,12 +417,62 @@ Definition wstep (c : pcfg) (s : sys) (op : wop) : sys :=
       Sys p (s_w s) (RPush ok :: s_res s)
   | WFlush sz =>
       let '(p, w, r) := flush (pc_var c) (s_p s) sz (s_w s) in
-      Sys p w (RFlush r (N.of_nat (length (ps_buf p))) :: s_res s)
+      (* a panic (debug assertion of Manifest::verify_invariants) kills the process *)
+      Sys p (match r with FPanic => crash w | _ => w end)
+          (RFlush r (N.of_nat (length (ps_buf p))) :: s_res s)
   | WCompact now sz =>
       let '(w, r) := compact (pc_var c) (pc_cc c) now sz (s_w s) in
-      Sys (s_p s) w (RCompact r :: s_res s)
+      Sys (s_p s) (match r with CPanic => crash w | _ => w end) (RCompact r :: s_res s)
   end.
 Definition sys_init (rid : N) (st0 : store) (io : list outcome) : sys :=
   Sys (pstate_init rid) (World st0 io [] false) [].
 Definition run_persist (c : pcfg) (rid : N) (st0 : store) (ops : list wop) (io : list outcome) : sys :=
   fold_left (wstep c) ops (sys_init rid st0 io).
+
+(* ---------- predicates used by the statements of C12 ---------- *)
+(* every object the manifest references exists and is a complete image of the right kind;
+   segment names follow the naming scheme and ids lie below next_segment_id *)
+Definition seg_ok (st : store) (m : manifest) (s : seginfo) : Prop :=
+  si_key s = NSeg (si_id s) ∧ si_id s < m_next m ∧
+  ∃ ds, st !! si_key s = Some (Whole (OSeg ds)).
+Definition ck_ok (st : store) (m : manifest) : Prop :=
+  match m_ck m with
+  | None => True
+  | Some ci => ci_last ci < m_next m ∧ (∃ i, ci_key ci = NCk i) ∧
+               ∃ kvs, st !! ci_key ci = Some (Whole (OCk kvs))
+  end.
+Definition man_good (st : store) (m : manifest) : Prop :=
+  Forall (seg_ok st m) (m_segs m) ∧ ck_ok st m.
+(* a store image a (crashed or fresh) process may start from *)
+Definition store_ok (st : store) : Prop :=
+  ∀ rid, ∃ m, cur_manifest st rid = Some m ∧ man_good st m.
+
+(* [Contains v u]: [u] went into [v] by zero or more ReplicatedValue::merge steps *)
+Inductive Contains : rvalue → rvalue → Prop :=
+| contains_refl v : Contains v v
+| contains_l a b u : Contains a u → Contains (rv_merge a b) u
+| contains_r a b u : Contains b u → Contains (rv_merge a b) u.
+(* a stored delta represents a confirmed one: same key, and the confirmed value was
+   merged into the stored value (or is it) *)
+Definition represents (d' d : delta) : Prop :=
+  d_key d' = d_key d ∧ Contains (d_val d') (d_val d).
+(* what the as-found compaction (keep the latest by logical time) guarantees instead *)
+Definition supersedes (d' d : delta) : Prop :=
+  d_key d' = d_key d ∧ d_time d <= d_time d'.
+
+(* tombstone GC inactive: every compaction of the workload runs with now <= ttl *)
+Definition gc_off (c : ccfg) (ops : list wop) : Prop :=
+  Forall (λ op, match op with WCompact now _ => now <= cc_ttl c | _ => True end) ops.
+Definition no_compaction (ops : list wop) : Prop :=
+  Forall (λ op, match op with WCompact _ _ => False | _ => True end) ops.
+
+(* crash / restart histories: every incarnation starts from what the previous one left *)
+Fixpoint run_incarnations (c : pcfg) (rid : N) (st0 : store)
+    (hist : list (list wop * list outcome)) : store * list delta :=
+  match hist with
+  | [] => (st0, [])
+  | (ops, io) :: r =>
+      let s := run_persist c rid st0 ops io in
+      let '(st, conf) := run_incarnations c rid (w_store (s_w s)) r in
+      (st, ps_conf (s_p s) ++ conf)
+  end.
